@@ -23,7 +23,26 @@ Direct oracle (-> violations; the property's own statement, no model of the code
      occupancy at time t, p = e_start . expm(Q (t-t0)), 40-digit mpmath) and SIR final size (exact rational pmf), and
      the law of rexp itself; every cell judged by an EXACT binomial acceptance region, Bonferroni-split so that the
      total false-alarm probability of a run of the check is below 1e-8 (see ALPHA_TOTAL).
+
+Histories, forms and the parallel path (second seeded round).  The law of a path depends on the parameter values, initial values
+and horizon IN FORCE at the call and on nothing else (the step theorems take the rates at the current state as their only input):
+ * half of the statistical cases are SESSIONS: the instance is first used otherwise (simulated with OTHER parameter values, other
+   initial values, by tau-leap with a pre_tau / epsilon that stay set, on another grid, with a dict of distributions that is then
+   replaced by plain numbers, integrated deterministically, deep-copied; a sibling instance with the same names and other values
+   is simulated before and BETWEEN the chunks of the judged batch), the target values are assigned in one of the accepted forms,
+   and the batch simulated afterwards is judged against the exact law for the values in force; initial state / time are handed
+   over as list / tuple / ndarray, int / float / int32, the horizon as number / numpy scalar / one-element list or tuple / grid;
+ * every chunk of returned paths is kept and compared with a digest taken when it was returned (a result overwritten later is a
+   violation of its own); the caller's initial-state object written to is a tag (`input-modified:x0`);
+ * (b) replay cases are sessions of stoch_common.run_session: the clocks of every exact call are aligned with the rates a FRESH
+   instance with the parameters in force gives at the visited states;
+ * a few statistical cases go through solve_stochast(..., parallel=True) (dask's synchronous scheduler: pygom's parallel code path
+   with seed=True, in-process); the unchanged tree draws every variate from a NEW entropy-seeded RandomState, which is what is
+   judged: the same laws, no two replicates with identical event times; a missing dask is tagged, not judged;
+ * (a) identities for the seed argument of rexp (the form the parallel path uses): seed=True gives fresh variates that leave the
+   global generator alone, an integer seed / a RandomState / False are what the docstring says; the law of rexp(1, r, seed=True).
 """
+import copy
 import math
 import random
 import time
@@ -41,9 +60,10 @@ LEAN = {"module": "Pygom.Props.C05",
                      "Pygom.C05.model_step_is_first_min", "Pygom.C05.model_step_time", "Pygom.C05.model_step_law",
                      "Pygom.C05.model_choice_law", "Pygom.C05.firstMin_cast", "Pygom.C05.first_min_iff",
                      "Pygom.C05.stepProbs_sum_to_one", "Pygom.C05.finalSizePMF_sums_to_one", "Pygom.C05.finalSizePMF_nonneg"]}
-BUDGET = {"quick": {"identity": 16, "pairs": 25, "law_draws": 20000, "replay": 48, "chain": 32, "sir": 16, "runs": 6000},
-          "thorough": {"identity": 64, "pairs": 100, "law_draws": 200000, "replay": 640, "chain": 160, "sir": 80,
-                       "runs": 20000, "max_steps": 2000}}
+BUDGET = {"quick": {"identity": 16, "pairs": 25, "law_draws": 20000, "seeded_draws": 1500, "replay": 48, "chain": 32, "sir": 16, "runs": 6000,
+                    "par": 4, "par_runs": 500, "warm": 200},
+          "thorough": {"identity": 64, "pairs": 100, "law_draws": 200000, "seeded_draws": 6000, "replay": 640, "chain": 160, "sir": 80,
+                       "runs": 20000, "max_steps": 2000, "par": 16, "par_runs": 1500, "warm": 400}}
 CASE_TIMEOUT = 900
 RULE = ("identity: random (seed, rate) pairs, rates log-uniform in [1e-3, 1e3]; replay: bounded-rate event models of the shared "
         "generator (zero-rate events, 1-5 states/events, multi-transition events) and chain/SIR models, exact mode, 2 paths each, "
@@ -51,8 +71,15 @@ RULE = ("identity: random (seed, rate) pairs, rates log-uniform in [1e-3, 1e3]; 
         "individual-level linear rates on a random progression graph (chain + optional skip/back/competing edges), rates in [0.25, 4], "
         "3-30 individuals per family all starting in one compartment, t0 in {0, 1.5}, horizon with 0.3-2 expected jumps per individual, "
         "observed by scalar horizon (state read from the raw path) or by a time grid; SIR: S0 3-40, I0 1-3, beta in [0.5, 4], gamma in "
-        "[0.5, 2], frequency- or density-dependent infection, run to extinction; `runs` real paths per case")
+        "[0.5, 2], frequency- or density-dependent infection, run to extinction; `runs` real paths per case; half of the chain / SIR "
+        "cases are sessions (history before the judged batch: other parameters / restore / other initial values / tau-leap with "
+        "left-over pre_tau and epsilon / other grid / sibling instance / distributions then numbers / integrate / deepcopy; target "
+        "values assigned as dict / list / array / pairs / two dicts), x0 as list / tuple / ndarray of int / float / int32, t0 as "
+        "float64 / int64 / float32, horizon as float / numpy float / one-element list or tuple / grid (array, list, tuple); `par` "
+        "small-population cases of `par_runs` paths through parallel=True; replay cases are sessions of the shared engine")
 ASSUMPTIONS = ["numpy's standard_exponential produces independent Exp(1) variates (hypothesis of the clock theorems; floats treated as reals)",
+               "parallel path / seed=True: generators seeded from OS entropy (one per draw on the unchanged tree) give independent uniform streams; "
+               "the parallel cases run pygom's parallel code path on dask's synchronous scheduler (in-process)",
                "the law of whole paths follows from the one-step law by the strong Markov property (standard CTMC construction, not formalised); "
                "the end-to-end statistics check exactly this composition on the real code",
                "rates are autonomous (with time-dependent rates the first-reaction method with frozen rates is not exact; outside the property's closed-form families)",
@@ -144,9 +171,32 @@ def sir_spec(kind):
 
 
 RATE_GRID = [0.25, 0.375, 0.5, 0.75, 1.0, 1.25, 1.5, 2.0, 2.5, 3.0, 4.0]
+X0_FORMS = ["arr_int", "arr_int", "arr_f64", "arr_f64", "list_int", "list_float", "list_float", "tuple_int", "tuple_float", "arr_i32"]
+T0_FORMS = ["np_f64", "np_f64", "np_f64", "np_i64", "np_f32"]
+HISTORY_KINDS = ["params", "params", "params", "restore", "iv", "tau_leftover", "grid", "sibling", "stoch_then_numbers", "determ", "deepcopy"]
+SCALAR_HORIZONS = ("scalar", "np_f64", "list1", "tuple1")
 
 
-def gen_chain(r, runs, alpha):
+def other_rate(r, v):
+    """another value of the grid, at least a factor 2 away: a batch simulated with it has a visibly different law"""
+    c = [w for w in RATE_GRID if w >= 2 * v or w <= v / 2]
+    return r.choice(c)
+
+
+def gen_history(r, params_other, warm, x0_other):
+    """what the instance is used for BEFORE the judged batch; the judged batch always runs with the case's own values"""
+    k = r.choice(HISTORY_KINDS)
+    h = {"kind": k, "params_other": params_other, "warm": warm, "assign": r.choice(list(SC.PARAM_FORMS)), "np_seed": r.randrange(2 ** 31),
+         "x0_other": x0_other, "x0_form": r.choice(X0_FORMS), "dist": r.choice(["frozen", "tuple"])}
+    return h
+
+
+def gen_forms(r, g, t0):
+    g["x0_form"] = r.choice(X0_FORMS)
+    g["t0_form"] = r.choice(T0_FORMS)
+
+
+def gen_chain(r, runs, alpha, *, warm=200, session_share=0.5, max_n=30):
     nf = r.choice([1, 1, 2])
     fams, pv, x0 = [], {}, []
     names = [["A", "B", "C", "D"], ["U", "V", "W", "Z"]]
@@ -167,7 +217,7 @@ def gen_chain(r, runs, alpha):
             p = "k%d%s%s" % (f, st[i], st[j])
             pv[p] = r.choice(RATE_GRID)
             el.append((i, j, p))
-        n = r.randint(3, 30)
+        n = r.randint(3, max_n)
         start = 0 if r.random() < 0.8 else r.randrange(k - 1)
         fams.append({"states": st, "edges": el, "n": n, "start": start})
         x0 += [n if i == start else 0 for i in range(k)]
@@ -175,14 +225,18 @@ def gen_chain(r, runs, alpha):
     t0 = r.choice([0.0, 0.0, 1.5])
     u = r.choice([0.3, 0.6, 1.0, 1.5, 2.0])
     t1 = t0 + u / mean_rate
-    kind = r.choice(["scalar", "scalar", "grid_array", "grid_list"])
-    times = [t1] if kind == "scalar" else [t0 + 0.4 * (t1 - t0), t1]
-    return {"kind": "chain", "families": fams, "params": pv, "x0": x0, "t0": t0, "times": times, "horizon_kind": kind,
-            "runs": runs, "np_seed": r.randrange(2 ** 31), "alpha": alpha}
+    kind = r.choice(["scalar", "scalar", "np_f64", "list1", "tuple1", "grid_array", "grid_list", "grid_tuple"])
+    times = [t1] if kind in SCALAR_HORIZONS else [t0 + 0.4 * (t1 - t0), t1]
+    g = {"kind": "chain", "families": fams, "params": pv, "x0": x0, "t0": t0, "times": times, "horizon_kind": kind,
+         "runs": runs, "np_seed": r.randrange(2 ** 31), "alpha": alpha}
+    gen_forms(r, g, t0)
+    if r.random() < session_share:
+        g["history"] = gen_history(r, {p: other_rate(r, v) for p, v in pv.items()}, warm, [v + 3 if v else 0 for v in x0])
+    return g
 
 
-def gen_sir(r, runs, alpha):
-    s0 = r.choice([3, 5, 8, 12, 15, 20, 30, 40])
+def gen_sir(r, runs, alpha, *, warm=200, session_share=0.5, s0_choices=(3, 5, 8, 12, 15, 20, 30, 40)):
+    s0 = r.choice(list(s0_choices))
     i0 = r.choice([1, 1, 2, 3])
     r0 = r.choice([0, 0, 4])
     kind = r.choice(["freq", "freq", "dens"])
@@ -196,12 +250,30 @@ def gen_sir(r, runs, alpha):
     else:
         beta = max(1, round(R0 * gamma / N * 1024)) / 1024.0
         pop = 1.0
-    return {"kind": "sir", "rate_kind": kind, "s0": s0, "i0": i0, "r0": r0, "beta": beta, "gamma": gamma, "N": float(N),
-            "pop": pop, "t0": r.choice([0.0, 2.0]), "T": 1.0e6, "horizon_kind": r.choice(["scalar", "scalar", "grid_list"]),
-            "runs": runs, "np_seed": r.randrange(2 ** 31), "alpha": alpha}
+    g = {"kind": "sir", "rate_kind": kind, "s0": s0, "i0": i0, "r0": r0, "beta": beta, "gamma": gamma, "N": float(N),
+         "pop": pop, "t0": r.choice([0.0, 2.0]), "T": 1.0e6, "horizon_kind": r.choice(["scalar", "scalar", "np_f64", "list1", "grid_list", "grid_tuple"]),
+         "runs": runs, "np_seed": r.randrange(2 ** 31), "alpha": alpha}
+    gen_forms(r, g, g["t0"])
+    if r.random() < session_share:
+        f = 4.0 if R0 <= 1.5 else 0.25                 # the other basic reproduction number is on the other side of 1.5
+        g["history"] = gen_history(r, {"beta": beta * f, "gamma": gamma * r.choice([1.0, 0.5, 2.0]), "N": pop}, warm, [s0 + 2, i0 + 1, r0])
+    return g
 
 
-def gen_identity(r, pairs, law_draws, alpha):
+def gen_par(r, runs, alpha):
+    """a small-population case simulated through solve_stochast(..., parallel=True)"""
+    if r.random() < 0.7:
+        g = gen_chain(r, runs, alpha, session_share=0.0, max_n=8)
+        g["horizon_kind"] = r.choice(["scalar", "scalar", "grid_list"])
+        g["times"] = [g["times"][-1]] if g["horizon_kind"] == "scalar" else [g["t0"] + 0.4 * (g["times"][-1] - g["t0"]), g["times"][-1]]
+    else:
+        g = gen_sir(r, runs, alpha, session_share=0.0, s0_choices=(3, 5, 8))
+        g["horizon_kind"] = "scalar"
+    g["parallel"] = True
+    return g
+
+
+def gen_identity(r, pairs, law_draws, alpha, seeded_draws=0):
     ps = []
     for _ in range(pairs):
         rate = r.choice([math.exp(r.uniform(math.log(1e-3), math.log(1e3))), float(r.randint(1, 50)), r.choice(RATE_GRID),
@@ -209,37 +281,44 @@ def gen_identity(r, pairs, law_draws, alpha):
         ps.append({"seed": r.randrange(2 ** 32), "rate": rate, "rate2": math.exp(r.uniform(-3, 3)), "n": r.randint(2, 6)})
     law = [{"rate": rr, "seed": r.randrange(2 ** 32)} for rr in
            (r.choice([0.05, 0.1, 0.2]), r.choice([0.3, 0.5, 0.7]), r.choice([2.0, 3.0, 5.0]), r.choice([8.0, 20.0, 50.0]))]
-    return {"kind": "identity", "pairs": ps, "law": law, "law_draws": law_draws, "alpha": alpha}
+    return {"kind": "identity", "pairs": ps, "law": law, "law_draws": law_draws, "alpha": alpha, "seeded_draws": seeded_draws,
+            "seeded_rate": r.choice([0.2, 0.5, 2.0, 5.0])}
 
 
 def make_cases(rng, tier, budget, factor=1):
-    nstat = budget["chain"] + budget["sir"] + budget["identity"]
+    nstat = budget["chain"] + budget["sir"] + budget["identity"] + budget.get("par", 0)
     alpha = ALPHA_TOTAL / nstat
     cases = []
-    ident = [gen_identity(random.Random(rng.getrandbits(64)), budget["pairs"], budget["law_draws"], alpha) for _ in range(budget["identity"] * factor)]
-    chain = [gen_chain(random.Random(rng.getrandbits(64)), budget["runs"], alpha) for _ in range(budget["chain"] * factor)]
-    sir = [gen_sir(random.Random(rng.getrandbits(64)), budget["runs"], alpha) for _ in range(budget["sir"] * factor)]
+    warm = budget.get("warm", 200)
+    ident = [gen_identity(random.Random(rng.getrandbits(64)), budget["pairs"], budget["law_draws"], alpha, budget.get("seeded_draws", 0)) for _ in range(budget["identity"] * factor)]
+    chain = [gen_chain(random.Random(rng.getrandbits(64)), budget["runs"], alpha, warm=warm) for _ in range(budget["chain"] * factor)]
+    sir = [gen_sir(random.Random(rng.getrandbits(64)), budget["runs"], alpha, warm=warm) for _ in range(budget["sir"] * factor)]
+    par = [gen_par(random.Random(rng.getrandbits(64)), budget.get("par_runs", 500), alpha) for _ in range(budget.get("par", 0) * factor)]
     # one of each kind first (the evidence samples the first non-trivial cases), the long statistical cases before the short ones
-    cases = chain[:1] + sir[:1] + ident[:1] + chain[1:] + sir[1:] + ident[1:]
+    cases = chain[:1] + sir[:1] + ident[:1] + par + chain[1:] + sir[1:] + ident[1:]
     n = 0
     while n < budget["replay"] * factor:
         r = random.Random(rng.getrandbits(64))
         pick = r.random()
         if pick < 0.6:
             base = SC.gen_sim_case(r, max_x0=30, ode_share=0.0)
+            sib = SC.gen_sim_case(r, max_x0=30, ode_share=0.0)
             if base is None:
                 continue
             c = dict(base)
             c["sim"] = SC.sim_settings(r, base, "exact", steps=budget.get("steps"))
             c["kind"] = "replay"
             c["model"] = "generated"
+            if r.random() < 0.6:
+                c["sim"]["x0_form"] = r.choice(X0_FORMS)
+                c["session"] = SC.gen_session(r, base, c["sim"], grid_share=0.25, exact_share=0.8, runs=(2, 3), sibling_base=sib)
         elif pick < 0.85:
-            g = gen_chain(r, 2, 0.0)
+            g = gen_chain(r, 2, 0.0, session_share=0.0)
             c = {"kind": "replay", "model": "chain", "spec": chain_spec(g["families"]), "params": g["params"], "x0": g["x0"],
                  "meta": {"states": [s for f in g["families"] for s in f["states"]]},
                  "sim": {"mode": "exact", "t0": g["t0"], "T": g["times"][-1] * 1.5 + 1.0, "np_seed": g["np_seed"], "epsilon": None, "pre_tau": None}}
         else:
-            g = gen_sir(r, 2, 0.0)
+            g = gen_sir(r, 2, 0.0, session_share=0.0)
             c = {"kind": "replay", "model": "sir", "spec": sir_spec(g["rate_kind"]),
                  "params": {"beta": g["beta"], "gamma": g["gamma"], "N": g["pop"]}, "x0": [g["s0"], g["i0"], g["r0"]],
                  "meta": {"states": ["S", "I", "R"]},
@@ -261,6 +340,7 @@ def run_identity(case):
     from pygom.utilR.distn import rexp
     mism, viol = [], []
     n_ok = 0
+    seed_false_is_zero = False
     for p in case["pairs"]:
         s, rate = int(p["seed"]), float(p["rate"])
         np.random.seed(s)
@@ -285,9 +365,47 @@ def run_identity(case):
             mism.append({"what": "identity:rexp-stream", "detail": "seed %d: consecutive rexp calls (%r, %r) do not continue the global stream (%r, %r)"
                          % (s, float(a), float(b), float(ra), float(rb))})
             continue
+        # the seed argument (what the parallel path of solve_stochast passes: seed=True).  Unchanged tree: True -> a NEW entropy-seeded
+        # RandomState per call, int k -> RandomState(k), a RandomState -> used as it is, False -> a copy of the global state
+        st_before = np.random.get_state()
+        t1, t2 = rexp(1, rate, seed=True), rexp(1, rate, seed=True)
+        st_after = np.random.get_state()
+        if not (np.array_equal(st_before[1], st_after[1]) and st_before[2] == st_after[2]):
+            mism.append({"what": "identity:rexp-seed-true-touches-global", "detail": "rexp(1, r, seed=True) advanced numpy's global generator"})
+        fixed = [float(np.random.RandomState(k).exponential(scale=1.0 / rate)) for k in (0, 1)]
+        if float(t1) == float(t2) or float(t1) in fixed or float(t2) in fixed or not (t1 > 0 and t2 > 0):
+            # a continuous variate drawn twice from fresh generators: equal values (or the value of a fixed seed) have probability 0
+            viol.append({"what": "rexp(1, rate, seed=True) does not return a fresh exponential variate on every call",
+                         "signature": "C05:rexp:seed=True:not-a-fresh-variate",
+                         "detail": "rate %r: two calls returned %r and %r; RandomState(0) / RandomState(1) give %r" % (rate, float(t1), float(t2), fixed)})
+        k_ = int(p["seed"]) % 1000
+        if float(rexp(1, rate, seed=k_)) != float(np.random.RandomState(k_).exponential(scale=1.0 / rate)):
+            mism.append({"what": "identity:rexp-seed-int", "detail": "rexp(1, %r, seed=%d) is not RandomState(%d).exponential(1/rate)" % (rate, k_, k_)})
+        rs, rs2 = np.random.RandomState(s), np.random.RandomState(s)
+        a = rexp(1, rate, seed=rs); b = rexp(1, float(p["rate2"]), seed=rs)
+        if not (float(a) == float(rs2.exponential(scale=1.0 / rate)) and float(b) == float(rs2.exponential(scale=1.0 / float(p["rate2"])))):
+            mism.append({"what": "identity:rexp-seed-randomstate", "detail": "seed %d: rexp with a RandomState object does not continue that object's stream" % s})
+        np.random.seed(s)
+        f1 = rexp(1, rate, seed=False)
+        g1 = rexp(1, rate)
+        if float(f1) == float(np.random.RandomState(0).exponential(scale=1.0 / rate)) and float(g1) == float(ref2):
+            # the unchanged tree: bool is an int, so test_seed(False) is RandomState(0) - not the documented copy of the global state.
+            # The simulation never passes seed=False (None serially, True in parallel): recorded, not judged here (C19 owns the helpers)
+            seed_false_is_zero = True
+        elif float(f1) != float(ref2) or float(g1) != float(ref2):
+            mism.append({"what": "identity:rexp-seed-false", "detail": "seed %d: rexp(seed=False) is neither the next variate of a copy of the global state nor RandomState(0)'s, or it advanced the global state" % s})
         n_ok += 1
     # the law of rexp(n, rate) itself: 8 equiprobable cells of Exp(rate)
     cells = Cells(case["alpha"])
+    m2 = int(case.get("seeded_draws") or 0)
+    if m2:
+        rate = float(case.get("seeded_rate", 1.0))
+        x = np.array([rexp(1, rate, seed=True) for _ in range(m2)], float)
+        edges = [-math.log1p(-k / 8.0) / rate for k in range(1, 8)]
+        cnt = np.bincount(np.searchsorted(edges, x, side="right"), minlength=8)
+        for k in range(8):
+            cells.add("rexp(1, rate=%r, seed=True) in octile %d of Exp(rate)" % (rate, k), cnt[k], m2, 1.0 / 8.0)
+        cells.add("rexp(1, rate=%r, seed=True) <= 0" % rate, int(np.sum(x <= 0)), m2, 0.0)
     m = int(case["law_draws"])
     for l in case["law"]:
         rate = float(l["rate"])
@@ -302,10 +420,11 @@ def run_identity(case):
     bad = cells.judge()
     if bad:
         b = bad[0]
-        viol.append({"what": "rexp(n, rate) is not Exp(rate): %s" % b[0], "signature": "C05:rexp:law",
+        viol.append({"what": "rexp(n, rate) is not Exp(rate): %s" % b[0], "signature": "C05:rexp:law" + (":seed=True" if "seed=True" in b[0] else ""),
                      "detail": "count %d of %d, expected probability %.6g, exact acceptance region [%d, %d], z = %.1f; %d cells fail"
                      % (b[1], b[2], b[3], b[4], b[5], b[6], len(bad))})
-    return {"nontrivial": True, "mismatches": mism, "violations": viol, "tags": ["kind:identity"] + (["identity:all-equal"] if n_ok == len(case["pairs"]) else []),
+    return {"nontrivial": True, "mismatches": mism, "violations": viol, "tags": ["kind:identity"] + (["identity:all-equal"] if n_ok == len(case["pairs"]) else [])
+            + (["identity:seed-false-is-RandomState(0)-not-judged"] if seed_false_is_zero else []),
             "sample": {"kind": "identity", "pairs": len(case["pairs"]), "identical": n_ok, "law_cells": len(cells.cells)}}
 
 
@@ -361,55 +480,303 @@ def align_draws(jr, log, rate_fn, mism, tags):
 
 
 def run_replay(case):
-    spec, sim = case["spec"], case["sim"]
+    """every exact call of a session (an old-style case is a session of one call): per-step tie (C04's) and the alignment of the
+    recorded clocks with the rates a FRESH instance, given the parameters in force, computes at the visited states"""
+    spec = case["spec"]
     tags, mism, viol = ["kind:replay", "replay:" + case.get("model", "generated")], [], []
-    model = SC.build_model(case)
-    lr = SC.lean_lims(spec)
-    tr = SC.traced_run(model, sim["T"], True, sim["np_seed"], iterations=2, max_steps=case.get("max_steps", SC.MAX_STEPS))
-    if tr.error is not None:
-        # crashes of solve_stochast belong to C04; here they only break the tie
-        mism.append({"what": "replay:raised", "detail": "%s: %s" % (type(tr.error).__name__, str(tr.error)[:300])})
-        return {"nontrivial": False, "mismatches": mism, "violations": viol, "tags": tags + ["raised"]}
-    Xs, Js, Ts = tr.result
-    accepted, multi = 0, 0
-    for p in range(len(Xs)):
-        jr = tr.jumps[p]
-        J = np.array(Js[p])
-        nE = len(np.asarray(tr.evaluators["eventRateVector"](jr["X"][0], jr["T"][0])).ravel())
-        if J.ndim == 1:
-            J = J.reshape(0, nE)
-        jr["J"] = J
-        seg = tr.log[jr["log"][0]:jr["log"][1]]
-        its = SC.segment(seg, True)
-        SC.tie_steps(model, case, jr, its, lr["lims"], mism, tags)
-        multi += align_draws(jr, seg, tr.evaluators["eventRateVector"], mism, tags)
-        accepted = max(accepted, len(jr["T"]) - 1)
-        if jr["truncated"]:
-            tags.append("truncated")
-        if any(it.get("complete") and np.any(np.ravel(it["rates"]) == 0) and np.any(np.ravel(it["rates"]) > 0) for it in its):
-            tags.append("zero_rate_event_present")
-    return {"nontrivial": accepted >= 5 and multi >= 1, "mismatches": mism, "violations": viol, "tags": tags,
-            "sample": {"kind": "replay", "model": case.get("model"), "x0": case["x0"], "accepted_steps": accepted, "steps_with_2+_clocks": multi}}
+    state = {"accepted": 0, "multi": 0, "lr": None, "refs": {}}
+
+    def reference_rates(call):
+        key = json_key(call.case["params"])
+        if key not in state["refs"]:
+            ref = pymodel.build(spec, backend="lambda")
+            ref.parameters = {k: float(v) for k, v in call.case["params"].items()}
+            state["refs"][key] = ref.eventRateVector
+        return state["refs"][key]
+
+    def judge(call, model):
+        tr = call.tr
+        if not call.exact:
+            tags.append("session:tau-call-not-judged")
+            return tr.error is None
+        if state["lr"] is None:
+            state["lr"] = SC.lean_lims(spec)
+        if tr.error is not None:
+            # crashes of solve_stochast belong to C04; here they only break the tie
+            mism.append({"what": "replay:raised", "detail": "%s: %s" % (type(tr.error).__name__, str(tr.error)[:300])})
+            tags.append("raised")
+            return False
+        rate_ref = reference_rates(call)
+        Xs, Js, Ts = tr.result
+        for p in range(len(tr.jumps)):
+            jr = tr.jumps[p]
+            J = np.array(jr["J"])
+            nE = len(np.asarray(rate_ref(jr["X"][0], jr["T"][0])).ravel())
+            if J.ndim == 1:
+                J = J.reshape(0, nE)
+            jr["J"] = J
+            seg = tr.log[jr["log"][0]:jr["log"][1]]
+            its = SC.segment(seg, True)
+            try:
+                SC.tie_steps(model, call.case, jr, its, state["lr"]["lims"], mism, tags)
+            except (KeyError, IndexError, ValueError) as exc:     # a recorded stream that does not have the modelled structure at all
+                mism.append({"what": "trace:unparsed", "detail": "%s: %s" % (type(exc).__name__, exc)})
+            for it in its:
+                if it.get("complete") and not np.array_equal(np.asarray(it["rates"], float).ravel(), np.asarray(rate_ref(it["x"], it["t"]), float).ravel()):
+                    mism.append({"what": "replay:rates-not-those-of-the-parameters-in-force",
+                                 "detail": "call at op %d: at x=%s the run used rates %s, a fresh instance with the current parameters gives %s"
+                                           % (call.index, np.asarray(it["x"]).tolist(), np.ravel(it["rates"]).tolist(), np.ravel(rate_ref(it["x"], it["t"])).tolist())})
+                    break
+            state["multi"] += align_draws(jr, seg, rate_ref, mism, tags)
+            state["accepted"] = max(state["accepted"], len(jr["T"]) - 1)
+            if jr["truncated"]:
+                tags.append("truncated")
+            if any(it.get("complete") and np.any(np.ravel(it["rates"]) == 0) and np.any(np.ravel(it["rates"]) > 0) for it in its):
+                tags.append("zero_rate_event_present")
+        return True
+
+    SC.run_session(case, judge, "C05", tags, mism, viol, max_steps=case.get("max_steps", SC.MAX_STEPS))
+    return {"nontrivial": state["accepted"] >= 5 and state["multi"] >= 1, "mismatches": mism[:8], "violations": viol, "tags": tags,
+            "sample": {"kind": "replay", "model": case.get("model"), "x0": case["x0"], "accepted_steps": state["accepted"], "steps_with_2+_clocks": state["multi"],
+                       "session": bool(case.get("session"))}}
+
+
+def json_key(d):
+    import json
+    return json.dumps(d, sort_keys=True)
 
 
 # ----------------------------------------------------------------------------- (c) statistics
-def simulate(model, time_arg, runs, np_seed, budget_s=600.0):
-    """`runs` real exact paths in chunks (one global numpy stream, seeded once); None when too slow"""
+def _digest(paths):
+    """cheap fingerprint of a chunk of returned arrays (first, middle, last path in full; the sum of the others)"""
+    import hashlib
+    h = hashlib.sha256()
+    n = len(paths)
+    for i in sorted(set([0, n // 2, n - 1])):
+        h.update(np.ascontiguousarray(paths[i]).tobytes())
+    h.update(repr(float(sum(float(np.sum(np.asarray(x, float))) for x in paths))).encode())
+    return h.hexdigest()
+
+
+class Batch:
+    """the outcome of `runs` real exact paths"""
+    X = T = None
+    too_slow = False
+    error = None            # ("dask-missing" | exception text) for the parallel path
+    overwritten = None      # text when a chunk returned earlier no longer reads as it did
+    identical = None        # text when two consecutive replicates with events have identical event times
+
+
+def simulate(model, time_arg, runs, np_seed, budget_s=600.0, *, parallel=False, between=None):
+    """`runs` real exact paths in chunks (one global numpy stream, seeded once).  `between(k)` is called between chunks (a sibling
+    instance simulates there).  parallel=True: pygom's parallel code path (seed=True per replicate) on dask's synchronous scheduler."""
     import contextlib, io
+    out = Batch()
     np.random.seed(int(np_seed))
-    out_X, out_T = [], []
+    out_X, out_T, kept = [], [], []
     t_start = time.time()
     done = 0
+    sched = contextlib.nullcontext
+    if parallel:
+        try:
+            import dask
+            import dask.bag    # noqa
+            sched = lambda: dask.config.set(scheduler="synchronous")     # the setting is applied when the object is made: one per chunk
+        except Exception as exc:
+            out.error = "dask-missing"
+            return out
+    chunk = 0
     while done < runs:
         n = min(500, runs - done)
-        with contextlib.redirect_stdout(io.StringIO()):
-            X, J, T = model.solve_stochast(time_arg, n, exact=True, full_output=True)
-        out_X += list(X)
-        out_T += (list(T) if isinstance(T, list) else [T] * n)
+        with contextlib.redirect_stdout(io.StringIO()), sched():
+            try:
+                X, J, T = model.solve_stochast(time_arg() if callable(time_arg) else time_arg, n, exact=True, full_output=True, parallel=parallel)
+            except Exception as exc:
+                out.error = "%s: %s" % (type(exc).__name__, str(exc)[:300])
+                return out
+        X = list(X)
+        Tl = list(T) if isinstance(T, list) else [T] * n
+        kept.append((X, _digest(X), Tl if isinstance(T, list) else None, _digest(Tl) if isinstance(T, list) else None))
+        out_X += X
+        out_T += Tl
         done += n
+        chunk += 1
+        if between is not None and done < runs:
+            between(chunk)
         if time.time() - t_start > budget_s and done < runs:
-            return None, None
-    return out_X, out_T
+            out.too_slow = True
+            return out
+    for k, (X, dX, Tl, dT) in enumerate(kept):
+        if _digest(X) != dX or (Tl is not None and _digest(Tl) != dT):
+            out.overwritten = "chunk %d of %d (paths %d..%d) no longer reads as it did when it was returned" % (k, len(kept), 500 * k, 500 * k + len(X) - 1)
+            break
+    out.X, out.T = out_X, out_T
+    return out
+
+
+def identical_replicates(X, T, raw):
+    """two consecutive replicates that both have events and coincide in every event time (raw output) - probability 0 under the law"""
+    if not raw:
+        return None
+    for i in range(len(T) - 1):
+        a, b = np.asarray(T[i], float), np.asarray(T[i + 1], float)
+        if len(a) >= 2 and a.shape == b.shape and np.array_equal(a, b):
+            return "replicates %d and %d have the same %d event times %s" % (i, i + 1, len(a) - 1, a[:4].tolist())
+    return None
+
+
+def horizon_arg(hk, t0, times):
+    """a callable returning a NEW object for the time argument on every call"""
+    t1 = float(times[-1])
+    if hk == "scalar":
+        return lambda: t1
+    if hk == "np_f64":
+        return lambda: np.float64(t1)
+    if hk == "list1":
+        return lambda: [t1]
+    if hk == "tuple1":
+        return lambda: (t1,)
+    g = [float(t0)] + [float(t) for t in times]
+    return {"grid_array": lambda: np.array(g), "grid_list": lambda: list(g), "grid_tuple": lambda: tuple(g)}[hk]
+
+
+def build_pdict_around(params, dist):
+    """a dict of distributions concentrated around `params` (frozen scipy distributions or (sampler, args) tuples)"""
+    import scipy.stats as st
+    from pygom import utilR
+    d = {}
+    for k, v in params.items():
+        d[k] = st.gamma(100.0, 0.0, float(v) / 100.0) if dist == "frozen" else (utilR.rgamma, (100.0, 100.0 / float(v)))
+    return d
+
+
+class Configured:
+    """the instance under test, taken through its history; .model is what the judged batch runs on"""
+
+    def __init__(self, spec, params, x0, t0, case, tags):
+        self.spec, self.params, self.x0, self.t0, self.case, self.tags = spec, dict(params), [int(v) for v in x0], float(t0), case, tags
+        self.between = None
+        self.handed = []
+        h = case.get("history")
+        first = dict(params) if not h or h["kind"] not in ("params", "stoch_then_numbers", "deepcopy") else dict(h["params_other"])
+        x_first = self.x0 if not h or h["kind"] != "iv" else h["x0_other"]
+        t_first = self.t0 if not h or h["kind"] != "iv" else self.t0 + 1.0
+        self.model = pymodel.build(spec, backend="lambda")
+        self.model.parameters = {k: float(v) for k, v in first.items()}
+        self._set_iv(x_first, t_first, case.get("x0_form") if not h or h["kind"] != "iv" else h.get("x0_form"), case.get("t0_form"))
+        if h:
+            tags.append("history:" + h["kind"])
+            self._history(h)
+        tags.append("x0_form:%s" % (case.get("x0_form") or "arr_int")); tags.append("t0_form:%s" % (case.get("t0_form") or "np_f64"))
+
+    def _set_iv(self, x0, t0, x0_form, t0_form, via="values"):
+        xa, ta = SC.make_x0(x0, x0_form), SC.make_t0(t0, t0_form)
+        if via == "separate":
+            self.model.initial_state = xa; self.model.initial_time = ta
+        else:
+            self.model.initial_values = (xa, ta)
+        self.handed.append((xa, copy.deepcopy(xa)))
+
+    def _warm(self, targ, n, exact=True):
+        import contextlib, io
+        with contextlib.redirect_stdout(io.StringIO()):
+            try:
+                self.model.solve_stochast(targ() if callable(targ) else targ, n, exact=exact, full_output=True)
+            except Exception as exc:      # crashes belong to C04; the judged batch is what this check is about
+                self.tags.append("history:warmup-raised:" + type(exc).__name__)
+
+    def _sibling(self, h):
+        m = pymodel.build(self.spec, backend="lambda")
+        m.parameters = {k: float(v) for k, v in h["params_other"].items()}
+        m.initial_values = (np.array(h["x0_other"], float), np.float64(self.t0))
+        return m
+
+    def _history(self, h):
+        import contextlib, io
+        case, k, warm = self.case, h["kind"], int(h["warm"])
+        t_far = case["times"][-1] if "times" in case else case["T"]
+        targ = horizon_arg(case["horizon_kind"], self.t0, case["times"] if "times" in case else [self.t0 + 1.0, case["T"]])
+        np.random.seed(int(h["np_seed"]))
+        restore_params = False
+        if k == "params":
+            self._warm(targ, warm)
+            restore_params = True
+        elif k == "restore":
+            self._warm(targ, warm // 2)
+            SC.assign_params(self.model, h["params_other"], "dict")
+            self._warm(targ, warm // 2)
+            restore_params = True
+        elif k == "iv":
+            self._warm(lambda: self.t0 + 1.0 + (float(t_far) - self.t0 if float(t_far) < 1e5 else 50.0), warm)
+            self._set_iv(self.x0, self.t0, case.get("x0_form"), case.get("t0_form"), via="separate" if h["np_seed"] % 2 else "values")
+        elif k == "tau_leftover":
+            tot = max(sum(float(v) for v in self.params.values() if v) * max(sum(self.x0), 1), 1e-3)
+            self.model.pre_tau = 2.0 / tot
+            self.model._epsilon = 0.1
+            self._warm(lambda: (self.t0 + 20.0 / tot) if float(t_far) > 1e5 else float(t_far), max(20, warm // 4), exact=False)
+            self.tags.append("exact_with_leftover_tau_config")
+        elif k == "grid":
+            span = (float(t_far) - self.t0) if float(t_far) < 1e5 else 3.0
+            self._warm(lambda: np.array([self.t0, self.t0 + 0.3 * span, self.t0 + 0.7 * span, self.t0 + 1.3 * span]), warm // 2)
+            self._warm(lambda: self.t0 + 0.5 * span, warm // 2)
+        elif k == "sibling":
+            sib = self._sibling(h)
+            st = {"n": 0}
+
+            def between(chunk, sib=sib, st=st):
+                state = np.random.get_state()          # the sibling draws from the same global stream: put it back, the judged
+                with contextlib.redirect_stdout(io.StringIO()):   # batch stays one seeded stream
+                    sib.solve_stochast(targ(), 20, exact=True, full_output=True)
+                np.random.set_state(state)
+                st["n"] += 1
+            between(0)
+            self.between = between
+        elif k == "stoch_then_numbers":
+            self.model.parameters = build_pdict_around(h["params_other"], h["dist"])
+            self._warm(targ, warm)
+            restore_params = True
+        elif k == "determ":
+            span = (float(t_far) - self.t0) if float(t_far) < 1e5 else 3.0
+            with contextlib.redirect_stdout(io.StringIO()):
+                self.model.integrate(np.linspace(self.t0, self.t0 + span, 5)[1:])
+                self.model.solve_determ(np.linspace(self.t0, self.t0 + span, 4)[1:])
+        elif k == "deepcopy":
+            self._warm(targ, warm)
+            self.model = copy.deepcopy(self.model)
+            restore_params = True
+        else:
+            raise ValueError("unknown history %r" % k)
+        if restore_params:
+            self.tags.append("assign:" + SC.assign_params(self.model, self.params, h["assign"]))
+
+    def input_modified(self):
+        return any(not SC._same_obj(a, b) for a, b in self.handed)
+
+
+def batch_problems(out, case, tags, mism, viol, what):
+    """True when the batch cannot be judged"""
+    if out.error == "dask-missing":
+        tags.append("parallel:dask-missing-not-judged")
+        return True
+    if out.error is not None:
+        if case.get("parallel"):
+            mism.append({"what": "parallel:raised", "detail": out.error})
+            tags.append("parallel:raised")
+        else:
+            mism.append({"what": "stat:raised", "detail": out.error})
+        return True
+    if out.too_slow:
+        mism.append({"what": "stat:too-slow", "detail": "the runs did not finish within the time budget"})
+        return True
+    if out.overwritten:
+        viol.append({"what": "paths returned by an earlier solve_stochast call were changed by later calls", "signature": "C05:%s:kept-result-overwritten" % what,
+                     "detail": out.overwritten})
+    return False
+
+
+def sig_suffix(case):
+    h = case.get("history")
+    return ((":after-history:" + h["kind"]) if h else "") + (":parallel" if case.get("parallel") else "")
 
 
 def occupancy_reference(fam, params, dt):
@@ -431,31 +798,30 @@ def occupancy_reference(fam, params, dt):
 def run_chain(case):
     from scipy import stats as st
     tags, mism, viol = ["kind:chain", "horizon:" + case["horizon_kind"], "families=%d" % len(case["families"])], [], []
+    if case.get("parallel"): tags.append("parallel")
     spec = chain_spec(case["families"])
-    model = pymodel.build(spec, backend="lambda")
-    model.parameters = {k: float(v) for k, v in case["params"].items()}
     t0 = float(case["t0"])
-    model.initial_values = (np.array(case["x0"]), np.float64(t0))
+    cfg = Configured(spec, case["params"], case["x0"], t0, case, tags)
+    model = cfg.model
     times = [float(t) for t in case["times"]]
     hk = case["horizon_kind"]
-    if hk == "scalar":
-        targ = times[-1]
-    elif hk == "grid_array":
-        targ = np.array([t0] + times)
-    else:
-        targ = [t0] + times
+    raw = hk in SCALAR_HORIZONS
     runs = int(case["runs"])
-    X, T = simulate(model, targ, runs, case["np_seed"])
-    if X is None:
-        mism.append({"what": "stat:too-slow", "detail": "the runs did not finish within the time budget"})
+    out = simulate(model, horizon_arg(hk, t0, times), runs, case["np_seed"], parallel=bool(case.get("parallel")), between=cfg.between)
+    if cfg.input_modified(): tags.append("input-modified:x0")
+    if batch_problems(out, case, tags, mism, viol, "chain"):
         return {"nontrivial": False, "mismatches": mism, "violations": viol, "tags": tags}
+    X, T = out.X, out.T
+    same_rep = identical_replicates(X, T, raw)
+    if same_rep:
+        viol.append({"what": "two replicates of one call follow the same path", "signature": "C05:chain:identical-replicates" + sig_suffix(case), "detail": same_rep})
     # occupancy at each observation time, per run
     occ = []
     for ti, t in enumerate(times):
         rows = []
         for x, tt in zip(X, T):
             x = np.asarray(x, float)
-            if hk == "scalar":
+            if raw:
                 tt = np.asarray(tt, float)
                 rows.append(x[int(np.searchsorted(tt, t, side="right")) - 1])
             else:
@@ -491,16 +857,18 @@ def run_chain(case):
     if bad:
         b = bad[0]
         viol.append({"what": "occupancy of independent chains at time t is not multinomial(expm(Q t)): %s" % b[0],
-                     "signature": "C05:chain:occupancy",
+                     "signature": "C05:chain:occupancy" + sig_suffix(case),
                      "detail": "observed %d of %d, reference probability %.6g, exact acceptance region [%d, %d], z = %.1f; %d of %d cells fail; "
-                               "families %s params %s x0 %s t0 %r times %s"
-                               % (b[1], b[2], b[3], b[4], b[5], b[6], len(bad), len(cells.cells), case["families"], case["params"], case["x0"], t0, times)})
-    if hk == "scalar":
+                               "families %s params %s x0 %s (%s) t0 %r times %s history %s"
+                               % (b[1], b[2], b[3], b[4], b[5], b[6], len(bad), len(cells.cells), case["families"], case["params"], case["x0"],
+                                  case.get("x0_form"), t0, times, case.get("history"))})
+    if raw:
         total_events = sum(len(tt) - 1 for tt in T)
-    return {"nontrivial": runs >= 1000, "mismatches": mism, "violations": viol, "tags": tags,
+    return {"nontrivial": runs >= (300 if case.get("parallel") else 1000), "mismatches": mism, "violations": viol, "tags": tags,
             "sample": {"kind": "chain", "families": [{"states": f["states"], "edges": [(f["states"][i], f["states"][j], case["params"][p]) for i, j, p in f["edges"]],
                                                       "n": f["n"], "start": f["start"]} for f in case["families"]],
-                       "t0": t0, "times": times, "runs": runs, "cells": len(cells.cells), "events_simulated": total_events}}
+                       "t0": t0, "times": times, "runs": runs, "cells": len(cells.cells), "events_simulated": total_events,
+                       "history": (case.get("history") or {}).get("kind"), "x0_form": case.get("x0_form"), "parallel": bool(case.get("parallel"))}}
 
 
 def final_size_python(s0, i0, beta, gamma, pop):
@@ -538,16 +906,21 @@ def run_sir(case):
     if pmf_lean != pmf_py or Fraction(lean["total"]) != 1:
         mism.append({"what": "finalsize:pmf", "detail": "lean %s python %s" % (lean["pmf"][:6], [str(v) for v in pmf_py[:6]])})
     pmf = [float(v) for v in pmf_py]
-    model = pymodel.build(sir_spec(case["rate_kind"]), backend="lambda")
-    model.parameters = {"beta": float(case["beta"]), "gamma": float(case["gamma"]), "N": float(case["pop"])}
+    if case.get("parallel"): tags.append("parallel")
     t0 = float(case["t0"])
-    model.initial_values = (np.array([s0, i0, r0]), np.float64(t0))
-    targ = float(case["T"]) if case["horizon_kind"] == "scalar" else [t0, t0 + 1.0, float(case["T"])]
+    cfg = Configured(sir_spec(case["rate_kind"]), {"beta": float(case["beta"]), "gamma": float(case["gamma"]), "N": float(case["pop"])},
+                     [s0, i0, r0], t0, case, tags)
+    model = cfg.model
+    hk = case["horizon_kind"]
     runs = int(case["runs"])
-    X, T = simulate(model, targ, runs, case["np_seed"])
-    if X is None:
-        mism.append({"what": "stat:too-slow", "detail": "the runs did not finish within the time budget"})
+    out = simulate(model, horizon_arg(hk, t0, [t0 + 1.0, float(case["T"])]), runs, case["np_seed"], parallel=bool(case.get("parallel")), between=cfg.between)
+    if cfg.input_modified(): tags.append("input-modified:x0")
+    if batch_problems(out, case, tags, mism, viol, "sir"):
         return {"nontrivial": False, "mismatches": mism, "violations": viol, "tags": tags}
+    X, T = out.X, out.T
+    same_rep = identical_replicates(X, T, hk in SCALAR_HORIZONS)
+    if same_rep:
+        viol.append({"what": "two replicates of one call follow the same path", "signature": "C05:sir:identical-replicates" + sig_suffix(case), "detail": same_rep})
     fin = np.array([np.asarray(x, float)[-1] for x in X])
     alive = fin[:, 1] != 0
     off = (fin.sum(axis=1) != s0 + i0 + r0) | np.any(np.mod(fin, 1) != 0, axis=1)
@@ -566,11 +939,12 @@ def run_sir(case):
     bad = cells.judge()
     if bad:
         b = bad[0]
-        viol.append({"what": "SIR final size does not follow the embedded jump chain's law: %s" % b[0], "signature": "C05:sir:final-size",
+        viol.append({"what": "SIR final size does not follow the embedded jump chain's law: %s" % b[0], "signature": "C05:sir:final-size" + sig_suffix(case),
                      "detail": "observed %d of %d, exact probability %.6g, exact acceptance region [%d, %d], z = %.1f; %d of %d cells fail; "
-                               "S0=%d I0=%d R0=%d beta=%r gamma=%r N=%r (%s)"
-                               % (b[1], b[2], b[3], b[4], b[5], b[6], len(bad), len(cells.cells), s0, i0, r0, case["beta"], case["gamma"], case["pop"], case["rate_kind"])})
-    return {"nontrivial": runs >= 1000, "mismatches": mism, "violations": viol, "tags": tags,
+                               "S0=%d I0=%d R0=%d beta=%r gamma=%r N=%r (%s) x0 as %s history %s"
+                               % (b[1], b[2], b[3], b[4], b[5], b[6], len(bad), len(cells.cells), s0, i0, r0, case["beta"], case["gamma"], case["pop"], case["rate_kind"],
+                                  case.get("x0_form"), case.get("history"))})
+    return {"nontrivial": runs >= (300 if case.get("parallel") else 1000), "mismatches": mism, "violations": viol, "tags": tags,
             "sample": {"kind": "sir", "s0": s0, "i0": i0, "beta": case["beta"], "gamma": case["gamma"], "pop": case["pop"], "runs": runs,
                        "cells": len(cells.cells), "mean_final_size": float(z[ok].mean()) if ok.any() else None,
                        "exact_mean": float(sum(v * p for v, p in enumerate(pmf)))}}
